@@ -8,9 +8,11 @@
 (* the code.                                                               *)
 (*                                                                         *)
 (* Variant "fixed"  : texture coordinates of a face are taken through the  *)
-(*                    index; a point cloud is written through its indices. *)
+(*                    index; a point cloud is written through its indices  *)
+(*                    and keeps its TexCoord as vertex properties s, t.    *)
 (* Variant "pinned" : the pinned tree: binary writer takes TexCoord at the *)
-(*                    corner POSITION, point clouds ignore their indices.  *)
+(*                    corner POSITION, point clouds ignore their indices   *)
+(*                    and lose their TexCoord.                             *)
 (* lat mode only (D = 16320): int32 budget value*255 <= 2^22.              *)
 (***************************************************************************)
 EXTENDS PlyFormat
@@ -28,20 +30,24 @@ Quantize(t, v, D) ==
 Suffix(k) == CASE k = 1 -> "_0" [] k = 2 -> "_1" [] k = 3 -> "_2" [] OTHER -> "_3"
 
 \* writers added for attributes no property writer claims (WriteUnspecifiedProperties)
-UnspecWriters(src, o) ==
-    LET want(a) == ~Claims(o, a.n, a.ar) /\ ~(a.ar = 2 /\ a.n = "TexCoord")
+\* TexCoord of a triangle mesh lives in the face element; of any other topology in s, t
+\* (variant "pinned": dropped, the pinned tree has no place for it)
+UnspecWriters(src, o, variant) ==
+    LET isTex(a) == a.ar = 2 /\ a.n = "TexCoord"
+        want(a) == ~Claims(o, a.n, a.ar) /\ (isTex(a) => (src.topo # "triangle" /\ variant = "fixed"))
         mk(a) == [ar |-> a.ar, attr |-> a.n, t |-> "float",
-                  names |-> IF a.ar = 1 THEN <<a.n>> ELSE [k \in 1..a.ar |-> a.n \o Suffix(k)]]
+                  names |-> IF a.ar = 1 THEN <<a.n>> ELSE IF isTex(a) THEN <<"s", "t">>
+                            ELSE [k \in 1..a.ar |-> a.n \o Suffix(k)]]
         of(ar) == SelectSeq(src.attrs, LAMBDA a : a.ar = ar /\ want(a))
         all == of(4) \o of(3) \o of(2) \o of(1)
     IN [i \in DOMAIN all |-> mk(all[i])]
 
-Writers(src, o) ==
+Writers(src, o, variant) ==
     SelectSeq(EffProps(o), LAMBDA p : SHas(src, p.attr, p.ar))
-    \o (IF EffUnspec(o) THEN UnspecWriters(src, o) ELSE <<>>)
+    \o (IF EffUnspec(o) THEN UnspecWriters(src, o, variant) ELSE <<>>)
 
 PlyWrite(src, o, fmt, D, variant) ==
-    LET ws == Writers(src, o)
+    LET ws == Writers(src, o, variant)
         vprops == FlattenSeq([i \in DOMAIN ws |-> [k \in 1..ws[i].ar |-> [n |-> ws[i].names[k], t |-> ws[i].t]]])
         order == IF src.topo = "point" /\ variant = "fixed" THEN src.idx ELSE Iota(SAttrLen(src))
         rec(v) == FlattenSeq([i \in DOMAIN ws |->
